@@ -18,6 +18,7 @@ package main
 //@   ensures[C02:hop-spec] r0 <==> hop(name)
 
 //@ func (*proxy).handleAgentRequest props(C07)
+//@   requires p != nil && w != nil && r != nil && r.Header != nil && p.requests != nil && !held(p.Mutex) && p.requestIDs != nil
 //@   assigns heap
 
 //@ func (*proxy).newID props(C01,C07)
